@@ -22,7 +22,9 @@ Code shape (what mirrors what):
 * `newSols`, `numParents`, `ruleFires` ↔ the selection / restart block of `tell`, `_check_restart`;
 * `wmean`                   ↔ `np.sum(parents * weights[:, None], axis=0)` (weights supplied: they involve `log`);
 * `GradOpt.step`            ↔ `GradientAscentOpt.step` (`opt/_gradient_ascent_opt.py`); any other optimizer is
-                              a supplied function.
+                              a supplied function;
+* `effGrad`, `adamFirstStep`, `adamFirst` ↔ `AdamOpt.step` (`opt/_adam_opt.py`): the L2 term and the closed form
+                              of the first step after `reset`.
 -/
 namespace Pyribs.Dqd
 
@@ -126,6 +128,19 @@ inductive GradOpt
 def GradOpt.step : GradOpt → Vec → Vec → Vec
   | .ascent lr, θ, g => fun k => θ k + lr * g k
   | .other f, θ, g => f θ g
+
+/-- the gradient Adam really ascends when `l2_coeff = c` (`AdamOpt.step`, `opt/_adam_opt.py`: the ascent
+gradient is negated, `l2_coeff * theta` is **added** to that descent gradient, i.e. the objective is
+`f(θ) − c/2·‖θ‖²` and its ascent gradient is `g − c·θ`: the L2 term pulls θ towards the origin) -/
+def effGrad (g θ : Vec) (c : Rat) : Vec := fun k => g k - c * θ k
+
+/-- Adam's **first** step after a reset in closed form: with `m = (1−β₁)d`, `v = (1−β₂)d²`,
+`a = lr·√(1−β₂)/(1−β₁)` the update `−a·m/(√v + ε)` is `lr · e / (|e| + ε')` with `e` the ascent gradient and
+`ε' = ε/√(1−β₂)` (supplied: a square root) -/
+def adamFirstStep (lr ε' : Rat) (θ e : Vec) : Vec := fun k => θ k + lr * e k / (absQ (e k) + ε')
+
+/-- `GradientOptBase` instance used by the correspondence for the first Adam step after a reset -/
+def adamFirst (lr c ε' : Rat) : GradOpt := .other (fun θ g => adamFirstStep lr ε' θ (effGrad g θ c))
 
 /-! ## GradientArborescenceEmitter -/
 
